@@ -304,7 +304,7 @@ func init() {
 			return s
 		},
 		Run:  c08Run,
-		Rule: "iterables: []int, []string, []interface{}, [n]int, *[]int, *[n]int, arrays whose elements are all zero values, array literal, map[string]int, map[int]string, *map, hash literal, range/between/until, custom Iterator, groupBy, each at every length 0..3 (4 thorough); nil / nil slice / nil map / nil pointer to a slice, array, map, pointer or Iterator (render nothing) and int/string/struct/func (must be an error). bodies: every sequence of <=3 (4 thorough) statements over 19 items (emit literal/value/key, if+break, if+continue, emit-then-break, nested-if break, bare break/continue, return, let+emit, inner loop plain/with break/with continue/silent, fn literal, inner loops over an Iterator / a slice / nil that re-use the outer loop's variable names) in two tag layouts (one statement per tag; adjacent code tags merged) and 4 placements. Oracle: a reference interpreter over the body gives the expected text for ordered iterables; for maps every iteration starts with a sentinel+key, the observed visiting order must be a permutation (prefix when a break fires) of the entries and the reference run in that order must reproduce the output exactly; maps are additionally rendered under every forced rotation of Go's map iteration order (runtime hook). Helper blocks: break / continue (bare, inside if, inside nested if with text) inside the block of a block helper called (emitting or silently, nested 1-2 deep) in the loop body, every hit position: the helper receives the block's text up to the control statement, the call's own result is kept and the loop is broken / continued there. Control-free bodies are also checked by unrolling (body rendered per element with let-bound loop variables). Non-trivial: length>=2 and body contains a control statement or inner loop.",
+		Rule: "iterables: []int, []string, []interface{}, [n]int, *[]int, *[n]int, arrays whose elements are all zero values, array literal, map[string]int, map[int]string, *map, hash literal, range/between/until, custom Iterator, groupBy, each at every length 0..3 (4 thorough); nil / nil slice / nil map / nil pointer to a slice, array, map, pointer or Iterator (render nothing) and int/string/struct/func (must be an error). bodies: every sequence of <=3 (4 thorough) statements over 19 items (emit literal/value/key, if+break, if+continue, emit-then-break, nested-if break, bare break/continue, return, let+emit, inner loop plain/with break/with continue/silent, fn literal, inner loops over an Iterator / a slice / nil that re-use the outer loop's variable names) in two tag layouts (one statement per tag; adjacent code tags merged) and 4 placements. Oracle: a reference interpreter over the body gives the expected text for ordered iterables; for maps every iteration starts with a sentinel+key, the observed visiting order must be a permutation (prefix when a break fires) of the entries and the reference run in that order must reproduce the output exactly; maps are additionally rendered under every forced rotation of Go's map iteration order (runtime hook). Helper blocks: break / continue (bare, inside if, inside nested if with text) inside the block of a block helper called (emitting or silently, nested 1-2 deep) in the loop body, every hit position: the helper receives the block's text up to the control statement, the call's own result is kept and the loop is broken / continued there. Nil and falsy elements: []interface{} / [3]interface{} / map with nil elements in every position (bound as nil, also when an enclosing loop or variable uses the same names), Iterators and slices yielding \"\", false, 0 and empty HTML (visited like any other element). Control-free bodies are also checked by unrolling (body rendered per element with let-bound loop variables). Non-trivial: length>=2 and body contains a control statement or inner loop.",
 		Bound: func(th bool) string {
 			if th {
 				return "lengths 0..4, body sequences <=4"
@@ -596,6 +596,74 @@ func c08Special(t *engine.T) {
 		}
 	}
 	c08HelperBlocks(t, mk)
+	c08NilAndFalsyElements(t, mk)
+}
+
+type c08ListIter struct {
+	items []interface{}
+	pos   int
+}
+
+func (l *c08ListIter) Next() interface{} {
+	if l.pos >= len(l.items) {
+		return nil
+	}
+	l.pos++
+	return l.items[l.pos-1]
+}
+
+// nil elements of slices / arrays / maps are bound as nil (not as the previous element's value, and not as
+// a same-named variable of an enclosing scope); an Iterator ends only when Next returns nil, not at a falsy value.
+func c08NilAndFalsyElements(t *engine.T, mk func() *plush.Context) {
+	show := `<%= k %>:<%= if (v == nil) { %>nil<% } else { %><%= v %><% } %>,`
+	type tc struct {
+		name, src, want string
+		set             func(c *plush.Context)
+	}
+	var cases []tc
+	seqs := [][]interface{}{{"a", nil, "c"}, {nil, "b"}, {"a", nil}, {nil, nil, "c"}, {"a", "b", nil, nil, "e"}, {nil}}
+	for si, seq := range seqs {
+		seq := seq
+		var want strings.Builder
+		for i, e := range seq {
+			if e == nil {
+				fmt.Fprintf(&want, "%d:nil,", i)
+			} else {
+				fmt.Fprintf(&want, "%d:%v,", i, e)
+			}
+		}
+		cases = append(cases, tc{fmt.Sprintf("[]interface{} #%d", si), `<%= for (k, v) in sq { %>` + show + `<% } %>`, want.String(), func(c *plush.Context) { c.Set("sq", seq) }})
+		// the same under an outer loop / outer variable that uses the same names
+		cases = append(cases, tc{fmt.Sprintf("[]interface{} #%d shadowing an outer loop's names", si), `<%= for (k, v) in one { %><%= for (k, v) in sq { %>` + show + `<% } %><% } %>`, want.String(), func(c *plush.Context) { c.Set("sq", seq); c.Set("one", []string{"OUTER"}) }})
+		cases = append(cases, tc{fmt.Sprintf("[]interface{} #%d shadowing an outer variable", si), `<% let v = "OUTER" %><%= for (k, v) in sq { %>` + show + `<% } %>|<%= v %>`, want.String() + "|OUTER", func(c *plush.Context) { c.Set("sq", seq) }})
+		if len(seq) == 3 {
+			arr := [3]interface{}{seq[0], seq[1], seq[2]}
+			cases = append(cases, tc{fmt.Sprintf("[3]interface{} #%d", si), `<%= for (k, v) in sq { %>` + show + `<% } %>`, want.String(), func(c *plush.Context) { c.Set("sq", arr) }})
+		}
+	}
+	cases = append(cases, tc{"map with one nil value under an outer v", `<% let v = "OUTER" %><%= for (k, v) in mp { %>` + show + `<% } %>`, "x:nil,", func(c *plush.Context) { c.Set("mp", map[string]interface{}{"x": nil}) }})
+	falsy := [][]interface{}{{"a", "", "b"}, {"", "a"}, {false, true, false}, {0, 1, 0}, {template.HTML(""), template.HTML("<i>")}, {"a", false, "", 0, "z"}}
+	for fi, seq := range falsy {
+		seq := seq
+		var want strings.Builder
+		for i, e := range seq {
+			fmt.Fprintf(&want, "%d:%v,", i, e)
+		}
+		cases = append(cases, tc{fmt.Sprintf("Iterator yielding falsy values #%d", fi), `<%= for (k, v) in itf { %><%= k %>:<%= v %>,<% } %>`, want.String(), func(c *plush.Context) { c.Set("itf", &c08ListIter{items: seq}) }})
+		cases = append(cases, tc{fmt.Sprintf("slice with falsy values #%d", fi), `<%= for (k, v) in itf { %><%= k %>:<%= v %>,<% } %>`, want.String(), func(c *plush.Context) { c.Set("itf", seq) }})
+	}
+	for _, c := range cases {
+		c := c
+		t.Case("elements "+c.name+" "+q(c.src), true, func() (string, *engine.Fail) {
+			ctx := mk()
+			c.set(ctx)
+			out, err := Render(c.src, ctx)
+			if err != nil || out != c.want {
+				return "", engine.Failf("mismatch", "expected %q, got %q / %v", c.want, out, err)
+			}
+			return "elements", nil
+		})
+	}
 }
 
 // break / continue inside the block of a block helper that sits in a loop body ("however
